@@ -37,7 +37,7 @@ if (cmd === "gen") {
     try {
       // two-stage modes: "<request>\t<result of the previous stage>"
       const parts = line.split("\t");
-      const [reply, oracle] = M.asyncRunner ? await run(parse(parts[0]), parts[1] ? parse(parts[1]) : null) : run(parse(parts[0]));
+      const [reply, oracle] = M.asyncRunner ? await run(parse(parts[0]), parts[1] ? parse(parts[1]) : null, parts[2] ? parse(parts[2]) : null) : run(parse(parts[0]));
       out.push(show(reply) + "\t" + show(oracle));
     } catch (e) {
       out.push(`(host-throw ${quote(String(e && e.message))})\t(oracle fail host-throw)`);
